@@ -321,9 +321,10 @@ def execute_c09b(plan):
             PageLayout.save_logits = orig_save
         if res.violations:
             return res
-        missing = [p for p in ids if p not in captured]
+        missing = [p for p in ids if p not in captured or not os.path.exists(os.path.join(s1, 'logits', p + '.logits'))]
         if missing:
-            raise kernel.HarnessError('stage 1 never saved logits of %s' % missing)
+            viol('producer', 'stage1-wrote-no-logits', 'an unkilled stage-1 run that was asked for logits left no logits file for %s' % missing)
+            return res
         # --- faults on the durable artefacts between the stages
         lost = {p: set() for p in ids}
         legacy = set()
